@@ -48,6 +48,8 @@ static void install_sentinel(int s, const std::string &kind) {
     struct sigaction sa; memset(&sa, 0, sizeof sa); sigemptyset(&sa.sa_mask);
     if (kind == "info") { sa.sa_sigaction = sentinel_info; sa.sa_flags = SA_SIGINFO | SA_RESTART; sigaddset(&sa.sa_mask, SIGWINCH); sigaddset(&sa.sa_mask, SIGURG); }
     else if (kind == "plain") { sa.sa_handler = sentinel_plain; sa.sa_flags = SA_RESTART; sigaddset(&sa.sa_mask, SIGWINCH); }
+    else if (kind == "inforh") { sa.sa_sigaction = sentinel_info; sa.sa_flags = SA_SIGINFO | SA_RESETHAND | SA_NODEFER | SA_ONSTACK; sigaddset(&sa.sa_mask, SIGWINCH); sigaddset(&sa.sa_mask, SIGURG); }
+    else if (kind == "plainrh") { sa.sa_handler = sentinel_plain; sa.sa_flags = SA_RESETHAND | SA_RESTART | SA_NOCLDSTOP; sigaddset(&sa.sa_mask, SIGCHLD); }
     else if (kind == "ign") { sa.sa_handler = SIG_IGN; sa.sa_flags = SA_RESTART; sigaddset(&sa.sa_mask, SIGURG); }
     else { sa.sa_handler = SIG_DFL; }
     if (sigaction(signo_of(s), &sa, nullptr) != 0) { perror("sigaction"); _exit(3); }
@@ -57,7 +59,11 @@ static bool same_mask(const sigset_t &a, const sigset_t &b) {
     for (int i = 1; i <= SIGRTMAX; ++i) if (sigismember(&a, i) != sigismember(&b, i)) return false;
     return true;
 }
-static bool is_dfl_now(int s) { struct sigaction c; sigaction(signo_of(s), nullptr, &c); return !(c.sa_flags & SA_SIGINFO) && c.sa_handler == SIG_DFL; }
+// must not be sent: the default action would end the process, or the kernel would reset the disposition after the delivery
+static bool no_raise_now(int s) {
+    struct sigaction c; sigaction(signo_of(s), nullptr, &c);
+    return (!(c.sa_flags & SA_SIGINFO) && c.sa_handler == SIG_DFL) || (c.sa_flags & SA_RESETHAND);
+}
 // "orig": handler, flags and mask equal the saved ones; "origh": only the handler; "other": a different handler
 static std::string disp_json() {
     std::string d = "[", raw = "[";
@@ -227,6 +233,28 @@ static void do_batch(int L, const json &ops) {
     run_on(L, [&] { for (auto &o : ops) inline_op(o["o"].get<std::string>(), o["a"].get<int>(), L, 0); }, "batch");
     vh::T().printf("{\"e\":\"batch\",\"L\":%d,\"ops\":%s,\"en\":%s,\"d\":%s}", L, ops.dump().c_str(), en_json().c_str(), disp_json().c_str());
 }
+// two loop threads make one subscription call each at the same time: both tasks meet at a spinning barrier, wait their
+// offset (swept by the script) and call
+static void do_race(const json &ops, int da, int db) {
+    int ea = ops[0]["a"], eb = ops[1]["a"];
+    int La = g_cfg[ea].L, Lb = g_cfg[eb].L;
+    std::string oa = ops[0]["o"], ob = ops[1]["o"];
+    std::atomic<int> arrived{0};
+    Latch l(2);
+    auto task = [&](int L, const std::string &o, int e, int delay) {
+        g_loops[L]->loop->runInLoop([&, L, o, e, delay] {
+            arrived.fetch_add(1);
+            auto t0 = std::chrono::steady_clock::now();
+            while (arrived.load() < 2) if (std::chrono::steady_clock::now() - t0 > std::chrono::seconds(120)) watchdog_fail("race barrier");
+            for (volatile int i = 0; i < delay * 4; ++i) { }
+            inline_op(o, e, L, 0);
+            l.done();
+        }, "c04.race");
+    };
+    task(La, oa, ea, da); task(Lb, ob, eb, db);
+    l.wait("race");
+    vh::T().printf("{\"e\":\"race\",\"La\":%d,\"Lb\":%d,\"ops\":%s,\"en\":%s,\"d\":%s}", La, Lb, ops.dump().c_str(), en_json().c_str(), disp_json().c_str());
+}
 static void do_hold(int L) {
     std::shared_ptr<Hold> hd(new Hold);
     Latch started(1);
@@ -287,7 +315,8 @@ static void execute(const json &sc) {
         g_progress.fetch_add(1);
         std::string o = op["o"]; int a = op["a"];
         if (o == "raise") {
-            if (a < 1 || a > NSIG_T || is_dfl_now(a)) continue;            // the default action would end the process: not raised
+            if (a < 1 || a > NSIG_T) continue;
+            if (no_raise_now(a)) { T.printf("{\"e\":\"noraise\",\"s\":%d,\"d\":%s}", a, disp_json().c_str()); continue; }
             std::string via = op.value("via", "main"); int t = op.value("t", 1);
             if (via != "self" && via != "async") t = 0;
             else if (t < 1 || t > n || is_held(t)) { via = "main"; t = 0; }
@@ -296,6 +325,12 @@ static void execute(const json &sc) {
             if (a >= 1 && a <= n && !is_held(a)) do_hold(a);
         } else if (o == "release") {
             if (is_held(a)) do_release(a);
+        } else if (o == "race") {
+            const json &ro = op["ops"];
+            int ea = ro[0]["a"], eb = ro[1]["a"];
+            if (ea < 1 || eb < 1 || ea >= (int)g_ev.size() || eb >= (int)g_ev.size() || !g_ev[ea] || !g_ev[eb]) continue;
+            if (g_cfg[ea].L == g_cfg[eb].L || is_held(g_cfg[ea].L) || is_held(g_cfg[eb].L)) continue;
+            do_race(ro, op.value("da", 0), op.value("db", 0));
         } else if (o == "batch") {
             if (a >= 1 && a <= n && !is_held(a)) do_batch(a, op["ops"]);
         } else {
